@@ -7,6 +7,7 @@ import (
 	_ "verif/h/checks/c02"
 	_ "verif/h/checks/c03"
 	_ "verif/h/checks/c04"
+	_ "verif/h/checks/c05"
 	_ "verif/h/checks/c06"
 	_ "verif/h/checks/c07"
 	_ "verif/h/checks/c09"
